@@ -223,6 +223,19 @@ def verify_unit_once(unit, repo, canary=False, extra_stubs=()):
         for o in f['spans']:
             if o.get('k') == 'src' and f['site'] is None:
                 f['site'] = o
+        sec0 = str((f['clause'] or {}).get('section', '')) if (f['clause'] or {}).get('k') == 'contract' else ''
+        if f['site'] is None and sec0.startswith('before'):
+            # an assertion placed before a statement: the site is that statement (the nearest source line below the block)
+            ln = max(o['gen_line'] for o in f['spans'] if o.get('k') == 'contract')
+            q = ln + 1
+            while q <= len(origin) and (origin[q - 1].get('k') != 'src' or not lines[q - 1].strip()):
+                q += 1
+            if q <= len(origin):
+                o = dict(origin[q - 1])
+                o['gen_line'] = q
+                o['gen_text'] = lines[q - 1].strip()
+                o['primary'] = False
+                f['site'] = o
         if f['site'] is None and f['clause'] is not None and str(f['clause'].get('section', '')).startswith('at returns'):
             # an assertion of a block placed at a `return`: the site is that return (the nearest source line above the block)
             ln = min(o['gen_line'] for o in f['spans'] if o.get('k') == 'contract')
